@@ -365,7 +365,7 @@ class StoreLog(Hooks):
         self.attr_stores = []
 
     def on_store(self, eng, fr, node, base, index, value, st):
-        if fr.depth == 0:
+        if fr.depth <= 1:          # the method itself or a private helper of the class inlined into it
             if isinstance(index, str):
                 self.attr_stores.append((node, base, index, value, st))
             else:
@@ -391,12 +391,16 @@ def check_bookkeeping(ctx, rep):
             if r.op in ("store-sub", "aug") and ("." + field + "[") in ("." + r.detail):
                 if mth not in writers:
                     writers.append(mth)
+    # the public mutators whose code (private helpers of the class included) updates the counts
+    wq = {w.qual for w in writers}
+    helpers = {m.qual for m in cls.methods.values() if m.name.startswith("_") and not m.name.startswith("__")}
+    entries = [m for m in cls.methods.values() if not m.name.startswith("_") and (set(ctx.cg.region(m)) & wq)]
     n = 0
-    for mth in writers:
+    for mth in entries:
         if mth.name in ("add_atom", "kekulize"):
             continue  # initialisation to 0 / float->int normalisation: no delta
         h = StoreLog()
-        eng = Engine(ctx, h)
+        eng = Engine(ctx, h, inline_methods=helpers)
         params = {p: Num(Lin.var(p)) for p in mth.posparams[1:] if p in ("src", "dst", "a", "b", "order", "new_order")}
         fr = eng.run_function(mth, params)
         # group stores by path state identity: use final return states, collect stores whose state facts are a prefix
